@@ -51,6 +51,9 @@ def toPtrdiff (x : Nat) : Int := if x % SZ < 9223372036854775808 then ((x % SZ :
 
 /-- `std::string::max_size()` of libstdc++ (x86-64) -/
 def maxStr : Nat := 4611686018427387903
+/-- every `std::string` satisfies this -/
+def StrOk (s : Str) : Prop := s.length ≤ maxStr
+instance (s : Str) : Decidable (StrOk s) := by unfold StrOk; infer_instance
 def intMax : Int := 2147483647
 def intMin : Int := -2147483648
 /-- the result of an `int` operation: UB outside the range -/
